@@ -192,8 +192,15 @@ def _native_step(w, fname, cfg):
         w.claim(f'{fname}({d.hex()}) == bitwise definition', got == spec(d))
 
 
+_BOUNDARY_LENS = sorted({(1 << k) + d for k in range(3, 14) for d in (-1, 0, 1)} | {3 * 4096, 5 * 1024, 16384, 65536})
+
+
 def _native_full(w, fname, order):
-    n = w.int('n', 0, 300)
+    # every fourth sample sits on a power-of-two length boundary (block-wise "optimised" loops go wrong exactly there)
+    if w.choice('boundary', [False] * 7 + [True]):
+        n = w.choice('len', _BOUNDARY_LENS)
+    else:
+        n = w.int('n', 0, 300)
     d = w.bytes('data', n)
     f = _real(fname)
     if fname == 'crc16':
@@ -205,7 +212,7 @@ def _native_full(w, fname, order):
 
 
 @obligation('C18.native.differential', 'C18', kind='bounded', samples=1500, fuc=FUC,
-            descr='bounded: real crc16/crc32c vs the bitwise definitions on seeded random strings of length 0..300 '
+            descr='bounded: real crc16/crc32c vs the bitwise definitions on seeded random strings of length 0..300 and of every length 2^k-1, 2^k, 2^k+1 (k = 3..13), 5 KiB, 12 KiB, 16 KiB, 64 KiB '
                   '(sanity of the AST extraction; not counted as proved)')
 def differential(w):
     _native_full(w, 'crc16', 'big')
